@@ -8,10 +8,10 @@ package main
 // constant, or term by term.  No path enumeration, no solver.
 
 import (
-	"os"
 	"fmt"
 	"go/token"
 	"go/types"
+	"os"
 	"regexp"
 	"sort"
 	"strings"
